@@ -50,13 +50,13 @@ ASSUMPTIONS = ["values are ints, strs, None, tuples, lists, dicts with str keys;
                "equal up to key order only (python's dict == ignores order, the model's equality does not)",
                "generated functions are pure and total; they do not mutate their arguments",
                "parameters are positional-or-keyword (no variadics, no keyword-only/positional-only markers)",
-               "a parameter named `raise_run_exceptions` (swallowed by Node.run as a flag) is not generated",
                "pint.Quantity unwrapping in valid_value and executors are outside this property"]
 
 GEN = lib.BUILD / "c17_gen"
 INIT_KEYWORDS = ["self", "args", "label", "parent", "delete_existing_savefiles", "autoload", "autorun",
                  "checkpoint", "kwargs"]
 RUN_FLAGS = ["run_data_tree", "run_parent_trees_too", "fetch_input", "check_readiness", "emit_ran_signal"]
+RUN_KEYWORDS = RUN_FLAGS + ["raise_run_exceptions"]      # reserved next to __init__'s keywords
 
 # =============================================================================================
 # values: ["nd"] ["n"] ["i",z] ["s",str] ["t",[v]] ["l",[v]] ["m",tag,[[k,v]]]
@@ -640,8 +640,6 @@ def model_term(case):
             sp = "(SFull " + cl(f"({cs(n)}, ({opt(h, hint_coq)}, {val_coq(d)}))" for n, h, d in s[1]) + ")"
         return f"(oscenario {none} (Ok (to_dict_class {sp})) (fun k => instantiate k {pos0c} {kw0c}) {rest})"
     if k == "toframe":
-        if case["via"] == "function":
-            return f"(oscenario_frame {cn(case['n'])} {pos0c} {kw0c} {rest})"
         return (f"(oscenario {none} (Ok (to_frame_class {cn(case['n'])} true)) "
                 f"(fun k => instantiate k {pos0c} {kw0c}) {rest})")
     if k == "dc":
@@ -649,11 +647,9 @@ def model_term(case):
         for f in case["fields"]:
             d = f["default"]
             dd = "FRequired" if d[0] == "req" else f"({'FDefault' if d[0] == 'val' else 'FFactory'} {val_coq(d[1])})"
-            t = hint_coq(["x", ann_src(f["type"])]) if case.get("postponed") else hint_coq(f["type"])
+            t = hint_coq(f["type"])      # postponed annotations are resolved (typing.get_type_hints)
             fs.append("{| fd_name := " + cs(f["name"]) + f"; fd_type := {t}; fd_default := {dd} |}}")
         d = "{| dc_name := " + cs(case["name"]) + "; dc_fields := " + cl(fs) + " |}"
-        if case["via"] == "function":
-            return f"(oscenario_dataclass {d} {pos0c} {kw0c} {rest})"
         return f"(oscenario {none} (dataclass_class {d} true) (fun k => instantiate k {pos0c} {kw0c}) {rest})"
     return None
 
@@ -675,7 +671,7 @@ def expected_labels(case):
 
 def fn_class_expectation(case):
     """'ok' / 'reject' / 'any' for class creation, by the property's reading of the definition"""
-    if any(p["name"] in INIT_KEYWORDS for p in case["params"]):
+    if any(p["name"] in INIT_KEYWORDS + RUN_KEYWORDS for p in case["params"]):
         return "reject"                       # documented restriction on argument names
     multi = len(case["body"]) > 1
     dec = case["declared"]
@@ -1004,90 +1000,10 @@ def oracle_dc(case, obs):
 
 
 # ---- known findings --------------------------------------------------------------------------
-def _step_of(verdict):
-    import re
-    m = re.search(r": call (\d+)", verdict)
-    return int(m.group(1)) if m else None
-
-
 def known(case, obs, verdict):
-    """attribute an oracle failure to a recorded finding by its cause predicate over the CASE"""
-    sig = verdict.split(":")[0]
-    k = case["kind"]
-    ops = case["ops"]
-    i = _step_of(verdict)
-    if sig == "call-keyword-rejected" and k == "fn" and i is not None:
-        names = {p["name"] for p in case["params"]}
-        if any(key in RUN_FLAGS and key in names for key, _ in ops[i][1]):
-            return "C17-run-flag-named-parameter"
-    if sig in ("construction-binding", "construction-rejected", "binding-accepted", "hint-ignored") \
-            and "construction" in verdict \
-            and k in ("toframe", "dc") and case["via"] == "function" and len(ops[0][0]) >= 1:
-        return "C17-use-cache-swallows-first-positional"
-    if sig == "return-value" and k in ("tolist", "todict", "toframe", "fromlist", "dc") and i is not None \
-            and repeats_inputs(case, i):
-        return "C17-transformer-cache-hit-returns-output-dict"
-    if sig == "list-length" and k == "fromlist" and i is not None and wrong_length(case, i):
-        return "C17-list-to-outputs-length-unchecked"
-    if k == "dc" and case.get("postponed") and sig == "input-preview" and case["fields"]:
-        return "C17-dataclass-postponed-annotations"
+    """no open finding: every oracle failure is a violation (the former five are regression cases in
+    corpus/C17/witnesses.json)"""
     return None
-
-
-def case_names(case):
-    k = case["kind"]
-    if k == "fn":
-        return [p["name"] for p in case["params"]]
-    if k == "dc":
-        return [f["name"] for f in case["fields"]]
-    if k == "tolist":
-        return [f"item_{i}" for i in range(case["n"])]
-    if k == "toframe":
-        return [f"row_{i}" for i in range(case["n"])]
-    if k == "fromlist":
-        return ["list"]
-    s = case["spec"]
-    return list(dict.fromkeys(s[1])) if s[0] == "names" else [x for x, _, _ in s[1]]
-
-
-def case_defaults(case):
-    k = case["kind"]
-    if k == "fn":
-        return {p["name"]: p["default"] for p in case["params"] if p.get("default") is not None}
-    if k == "dc":
-        return {f["name"]: f["default"][1] for f in case["fields"] if f["default"][0] != "req"}
-    if k == "todict" and case["spec"][0] == "full":
-        return {x: d for x, _, d in case["spec"][1] if d != ["nd"]}
-    return {}
-
-
-def effective_envs(case):
-    """arguments accumulated after every op, by plain left-to-right binding over the description's names
-    (an op the definition would refuse leaves them as they are)"""
-    names = case_names(case)
-    ops = case["ops"]
-    if case["kind"] in ("toframe", "dc") and case["via"] == "function" and ops[0][0]:
-        ops = [[ops[0][0][1:], ops[0][1]]] + ops[1:]      # what the node actually received
-    env, out = case_defaults(case), []
-    for pos, kw in ops:
-        if len(pos) <= len(names) and not ({k2 for k2, _ in kw} & set(names[:len(pos)])) \
-                and all(k2 in names for k2, _ in kw):
-            env = dict(env)
-            env.update(dict(zip(names, pos)))
-            env.update({k2: v for k2, v in kw})
-        out.append(env)
-    return out
-
-
-def repeats_inputs(case, i):
-    """call i is made with exactly the arguments some earlier call already ran with"""
-    envs = effective_envs(case)
-    return any(envs[i] == envs[j] for j in range(1, i))
-
-
-def wrong_length(case, i):
-    v = effective_envs(case)[i].get("list")
-    return v is not None and v[0] == "l" and len(v[1]) != case["n"]
 
 
 def nontrivial(case, obs):
@@ -1188,12 +1104,12 @@ def gen_fn(rng, ctx=None):
     pool = list(NAMES)
     r = rng.random()
     if r < 0.05:
-        pool += ["fetch_input", "check_readiness"]
+        pool += ["fetch_input", "check_readiness", "raise_run_exceptions"]
     elif r < 0.08:
         pool += ["label", "parent"]
     names = rng.sample(pool, k)
     if k and "fetch_input" in pool and rng.random() < 0.8:
-        names[rng.randrange(k)] = rng.choice(["fetch_input", "check_readiness"])
+        names[rng.randrange(k)] = rng.choice(["fetch_input", "check_readiness", "raise_run_exceptions"])
         names = list(dict.fromkeys(names))
     ndef = rng.choice([0, 0, 1, 1, 2, len(names)]) if names else 0
     ndef = min(ndef, len(names))
